@@ -75,10 +75,12 @@ RULE = ("api: every single op from every small state (exhaustive), then seeded r
 EXHAUSTIVE = True
 EXHAUSTIVE_SCOPE = {
     "quick": "api: texts over {a,\\n} len<=2 x all cursors x every single op; keys: every bound key once from 5 "
-             "editor states x 3 documents",
+             "editor states x 3 documents (+ a sample of the Vi operator x text-object grammar)",
     "thorough": "api: texts over {a,\\n,世} len<=3 x all cursors x every single op; keys: every bound key once "
                 "from 5 editor states x 3 documents, and every ordered pair over 116 keys (all named keys + 48 "
-                "printable command keys) from Vi navigation, and named-first pairs from Vi insert and Emacs",
+                "printable command keys) from Vi navigation, and named-first pairs from Vi insert and Emacs; the Vi "
+                "grammar [count] operator (12) x motion/text-object (79) x 3 documents and visual mode (3) x object x "
+                "operator (14)",
 }
 TRUSTED = ["harness/c05.py + c05_editor.py: the tracing Buffer subclass logs every call of a state-writing primitive "
            "(outermost only) and the state after it; key sessions are run once per check, inside the generating "
@@ -566,7 +568,8 @@ def run_keys(case):
     try:
         with E.editor(text=case["text"], cursor=case["cur"], vi=case["vi"], multiline=case["ml"],
                       history=case["hist"], read_only=case["ro"], clip=case.get("clip"),
-                      clip_type=case.get("clip_type", "CHARACTERS"), hs=case.get("hs", False)) as ed:
+                      clip_type=case.get("clip_type", "CHARACTERS"), hs=case.get("hs", False),
+                      sug=case.get("sug", False), val=case.get("val", False)) as ed:
             app, kp = ed.app, ed.app.key_processor
             i0, i1 = keys_init(ed)
             model += [init_line(0, i0), init_line(1, i1)]
@@ -779,9 +782,14 @@ def limit_digits(ops):
     return out
 
 
-def keys_case(vi, ml, ro, text, cur, hist, clip, ops, hs=False):
-    return {"kind": "keys", "vi": vi, "ml": ml, "ro": ro, "hs": hs, "text": text, "cur": cur, "hist": hist,
-            "clip": clip[0], "clip_type": clip[1], "ops": limit_digits(list(ops))}
+def keys_case(vi, ml, ro, text, cur, hist, clip, ops, hs=False, sug=False, val=False):
+    c = {"kind": "keys", "vi": vi, "ml": ml, "ro": ro, "hs": hs, "text": text, "cur": cur, "hist": hist,
+         "clip": clip[0], "clip_type": clip[1], "ops": limit_digits(list(ops))}
+    if sug:
+        c["sug"] = True     # auto-suggestion from the history
+    if val:
+        c["val"] = True     # a validator that rejects texts containing 'x'
+    return c
 
 
 def rand_text(rng, ml):
@@ -842,7 +850,32 @@ def gen_keys_cases(tier, rng):
                 for k2 in PAIR_KEYS:
                     out.append(keys_case(vi, True, False, "ab cd\n\n世 x", 1, HISTS[1], CLIPS[1],
                                          PREFIXES[name] + [k1, k2]))
-    nrand = 1200 if tier == "quick" else 20000
+    # Vi grammar: [count] operator [count] motion/text-object, and visual-mode selections + operator
+    operators = [["d"], ["c"], ["y"], [">"], ["<"], ["g", "~"], ["g", "u"], ["g", "U"], ["g", "?"], ["g", "q"],
+                 ["\"", "a", "d"], ["\"", "A", "y"]]
+    objs = [[a, o] for a in "ia" for o in "wW()[]{}<>\"'`tbBps"] + \
+           [["f", "x"], ["t", "c"], ["F", "a"], ["T", "x"], ["g", "g"], ["g", "e"], ["g", "E"], ["g", "_"], ["g", "m"],
+            ["}"], ["{"], ["%"], ["$"], ["0"], ["^"], ["w"], ["b"], ["e"], ["G"], ["j"], ["k"], ["h"], ["l"], ["H"], ["L"],
+            ["n"], ["N"], ["*"], ["#"], [";"], [","], ["|"], ["-"], ["+"], ["c-m"], [" "], ["c-h"]]
+    vdocs = ["(ab 'x c') {d}\n  <t>q</t>\n\nlast w", "a", ""]
+    grammar = []
+    for op in operators:
+        for cnt in ([], ["2"]):
+            for ob in objs:
+                for doc in vdocs:
+                    grammar.append(keys_case(True, True, False, doc, min(5, len(doc)), HISTS[1], CLIPS[1],
+                                             ["escape", "<flush>"] + cnt + op + ob + ["escape"]))
+    for vis in (["v"], ["V"], ["c-v"]):
+        for ob in objs:
+            for vop in (["d"], ["c"], ["y"], ["~"], ["u"], ["U"], ["J"], [">"], ["<"], ["r", "x"], ["I", "z"],
+                        ["A", "z"], ["x"], ["p"]):
+                grammar.append(keys_case(True, True, False, vdocs[0], 5, HISTS[1], CLIPS[2],
+                                         ["escape", "<flush>"] + vis + ob + vop + ["escape"]))
+    if tier == "thorough":
+        out += grammar
+    else:
+        out += rng.sample(grammar, 250)
+    nrand = 1200 if tier == "quick" else 30000
     for _ in range(nrand):
         vi = rng.random() < 0.65
         ml = rng.random() < 0.5
@@ -855,7 +888,7 @@ def gen_keys_cases(tier, rng):
         if vi and rng.random() < 0.6:
             ops = ["escape", "<flush>"] + ops
         out.append(keys_case(vi, ml, rng.random() < 0.12, text, cur, rng.choice(HISTS), rng.choice(CLIPS), ops,
-                             hs=rng.random() < 0.2))
+                             hs=rng.random() < 0.2, sug=rng.random() < 0.15, val=rng.random() < 0.15))
     return out
 
 
